@@ -8,7 +8,7 @@ PID = 'C01'
 HERE = os.path.dirname(os.path.abspath(__file__))
 OUT = os.path.join(vlib.BUILD, 'c01')
 SPO = r'(const )?std::(shared_ptr<(op|op_origin)>|__shared_ptr<(op|op_origin).*>|__shared_ptr_access<(op|op_origin).*>)'
-UPS = r'(const )?(std::unique_ptr<stack(, std::default_delete<stack>)?>|stack::uptr)'
+UPS = r'(const )?((std::)?unique_ptr<stack(, std::default_delete<stack>)?>|stack::uptr)'
 VUPS = r'(const )?std::vector<' + UPS + r'(, std::allocator<' + UPS + r'>)?>'
 VUPS_IT = r'(const )?(__gnu_cxx::__normal_iterator<(const )?' + UPS + r' \*, ' + VUPS + r'>|' + VUPS + r'::(const_)?iterator)'
 VOPS = r'(const )?std::vector<std::shared_ptr<op>(, std::allocator<std::shared_ptr<op>>)?>'
@@ -28,11 +28,12 @@ ALT_CFG = {
                UPS + r'::operator(->|\*)': {'c': 'PTR_ID', 'by_value': True},
                UPS + r'::operator bool': {'c': 'PTR_BOOL', 'by_value': True},
                UPS + r'::operator=': 'SID_ASSIGN',
-               r'std::operator==\|.*nullptr_t\).*': 'UPTR_IS_NULL',
+               r'std::operator==\|.*nullptr_t\).*': 'UPTR_IS_NULL', r'std::operator!=\|.*nullptr_t\).*': 'UPTR_NOT_NULL',
                r'std::make_unique': 'STACK_COPY', r'std::move': 'VERIF_MOVE',
                r'scon::get': 'scon_get_merge_state',
                r'std::all_of': 'pvec_all_of',
                VUPS + r'::begin': 'PVEC_BEGIN', VUPS + r'::end': 'PVEC_END', VUPS + r'::operator\[\]': 'pvec_at',
+               VUPS + r'::front': 'PVEC_FRONT', VUPS + r'::back': 'PVEC_BACK', VUPS + r'::size': 'PVEC_SIZE', VUPS + r'::empty': 'PVEC_EMPTY',
                VUPS + r'::ctor\|.*size_type.*': 'pvec_sized',
                r'__gnu_cxx::operator!=.*': {'c': 'IT_NE', 'by_value': True},
                r'__gnu_cxx::__normal_iterator<.*>::operator\*': {'c': 'IT_DEREF', 'by_value': True},
@@ -59,7 +60,7 @@ def lambda_root(tu, lw):
         return None
     m = walk(fn)
     if m is None:
-        raise cxx2c.Unsupported('op_tine::next: the lambda given to std::all_of was not found')
+        return None          # no lambda (the scan may have been rewritten): nothing extra to lower
     lw.names[m['mangledName']] = 'tine_slot_is_null'
     return m['mangledName']
 
@@ -84,6 +85,7 @@ OR_CFG = {
     'extern': {r'std::__shared_ptr_access<(op|op_origin).*>::operator(->|\*)': {'c': 'PTR_ID', 'by_value': True},
                UPS + r'::operator(->|\*)': {'c': 'PTR_ID', 'by_value': True},
                UPS + r'::operator bool': {'c': 'PTR_BOOL', 'by_value': True},
+               r'std::operator==\|.*nullptr_t\).*': 'UPTR_IS_NULL', r'std::operator!=\|.*nullptr_t\).*': 'UPTR_NOT_NULL',
                r'std::make_unique': 'STACK_COPY', r'std::move': 'VERIF_MOVE',
                r'scon::get': 'scon_get_or_state', r'scon::reset': 'scon_reset_or_state', r'op_origin::set_next': 'origin_set_next',
                BRV + r'::begin': 'BRV_BEGIN', BRV + r'::end': 'BRV_END',
@@ -121,6 +123,9 @@ def jobs(tier):
          Job('alt_control', asrc, 'hb_alt_control', includes=inc, defines=['VERIF_CONTROL'], kind='control', expect='fail', unwind=17, timeout=600, cbmc_args=AUW),
          Job('or_control', osrc, 'hb_or_control', includes=inc, defines=['VERIF_CONTROL'], kind='control', expect='fail', unwind=17, timeout=600, cbmc_args=OUW)]
     if tier == 'thorough':
+        J.append(Job('bounded_alt_3branches', asrc, 'hb_alt_branches', includes=inc, defines=['NB=3'], kind='bounded', unwind=17, timeout=3000,
+             cbmc_args=['--object-bits', '12', '--unwindset', 'op_merge_next.0:9,op_next_model.0:4,op_next_model.1:5,pvec_all_of.0:4,op_tine_next.0:4,hb_alt_branches.2:8'],
+             note='ALT with 3 branches (round-robin order differs from slot order), 0..1 results per branch and input, 2 inputs in one feed'))
         J.append(Job('bounded_alt_refeed_2inputs', asrc, 'hb_alt', includes=inc, defines=['ALT_MAXFEED=2'], kind='bounded', unwind=17, timeout=3000,
                      cbmc_args=AUW, inputs=['g_nfeed'], note='as bounded_alt_refeed with 1-2 inputs before the first exhaustion'))
     return J
@@ -143,6 +148,9 @@ def spec_files():
 
 def prepare(tier):
     a = vlib.extract('alt', 'libzwerg/op.cc', ALT_CFG, ALT_ROOTS, OUT)
+    have = any(f['c_name'] == 'tine_slot_is_null' for f in a.report['functions'])
+    with open(os.path.join(OUT, 'alt_features.h'), 'w') as f:
+        f.write('#define C01_HAVE_LAMBDA 1\n' if have else '/* no lambda in op_tine::next */\n')
     o = vlib.extract('or', 'libzwerg/op.cc', OR_CFG, OR_ROOTS, OUT)
     return {'unit': 'libzwerg/op.cc (op_merge, op_tine, op_or)', 'functions': a.report['functions'] + o.report['functions']}
 
@@ -151,7 +159,10 @@ QUERIES = [('(5, 6, 7) let A := (1, 2); A', '<5|1> <5|2> <6|1> <6|2> <7|1> <7|2>
            ('(5,6) ((1,2) || 3)', '<5|1> <5|2> <6|1> <6|2>'), ('(5, 6) ((1 ?(0 ?eq)) || (1, 2))', '<5|1> <5|2> <6|1> <6|2>'),
            ('(5,6) let A := ((1,2),3); A', '<5|1> <5|2> <5|3> <6|1> <6|2> <6|3>'), ('[(5, 6) let A := (1, 2, 3); A] length', '<6>'),
            ('7 (1, 2, 3)', '<7|1> <7|2> <7|3>'), ('(5, 6) (1 || 2)', '<5|1> <6|1>'), ('(5, 6) (?(6 ?eq) 1 || 2)', '<5|2> <6|1>'),
-           ('(1, 2, 3) (?(2 ?eq) (10, 20) || ?(3 ?eq) 30)', '<2|10> <2|20> <3|30>'), ('0 ((1 add, 2 add) 5 mod)*', '<0> <1> <2> <3> <4>')]
+           ('(1, 2, 3) (?(2 ?eq) (10, 20) || ?(3 ?eq) 30)', '<2|10> <2|20> <3|30>'), ('0 ((1 add, 2 add) 5 mod)*', '<0> <1> <2> <3> <4>'),
+           ('(1, 2) (10, 20, 30)', '<1|10> <1|20> <1|30> <2|10> <2|20> <2|30>'), ('[(1, 2, 3) (10, 20, 30, 40)] length', '<12>'),
+           ('(1, 2, 3) ((== 2) || (== 3))', '<2> <3>'), ('(5, 6) let A := (1, 2, 3) ((== 2) || (== 3)); A', '<5|2> <5|3> <6|2> <6|3>'),
+           ('(1, 2) "%s" pos', '<0> <0>'), ('(1, 2) "%( (7, 8) %)" pos', '<1|0> <1|1> <2|0> <2|1>')]
 
 
 def replay(r):
